@@ -214,3 +214,40 @@ Theorem add_mean_one_shape (m : list (list Q)) (b : list Q) (n : nat) :
   snd (add_mean_one m b n) = b ++ [inject_Z (Z.of_nat n)].
 Proof. split; reflexivity. Qed.
 Local Close Scope Q_scope.
+
+(* ================================================================== right-hand side placement (velocity mode) *)
+Definition rhs_writes (fmap : list (Z * Z)) (vel : Z -> Q * Q) : list (nat * Q) :=
+  flat_map (fun kv => [(Z.to_nat (snd kv), fst (vel (fst kv))); (S (Z.to_nat (snd kv)), snd (vel (fst kv)))]) fmap.
+Lemma set_velocity_rhs_writes nrows fmap vel :
+  set_velocity_rhs nrows fmap vel = fold_left (fun b w => set_nth b (fst w) (snd w)) (rhs_writes fmap vel) (zeros nrows).
+Proof. unfold set_velocity_rhs, rhs_writes. generalize (zeros nrows). induction fmap as [|kv t IH]; intros b; simpl; [reflexivity|]. apply IH. Qed.
+
+Lemma fold_set_nth_other ws : forall b k, ~ In k (map fst ws) ->
+  nth k (fold_left (fun b (w : nat * Q) => set_nth b (fst w) (snd w)) ws b) 0%Q = nth k b 0%Q.
+Proof. induction ws as [|w t IH]; intros b k Hn; simpl; [reflexivity|]. rewrite IH by (intros H; apply Hn; right; exact H).
+  apply set_nth_other. intros E. apply Hn. left. exact E. Qed.
+Lemma fold_set_nth_length ws : forall b, length (fold_left (fun b (w : nat * Q) => set_nth b (fst w) (snd w)) ws b) = length b.
+Proof. induction ws as [|w t IH]; intros b; simpl; [reflexivity|]. rewrite IH. apply set_nth_length. Qed.
+Lemma fold_set_nth_same ws : forall b i x, NoDup (map fst ws) -> In (i, x) ws -> (i < length b)%nat ->
+  nth i (fold_left (fun b (w : nat * Q) => set_nth b (fst w) (snd w)) ws b) 0%Q = x.
+Proof. induction ws as [|w t IH]; intros b i x Hnd Hin Hi; simpl in *; [tauto|]. inversion Hnd; subst. destruct Hin as [->|Hin].
+  - simpl. rewrite fold_set_nth_other by exact H1. apply set_nth_same. exact Hi.
+  - apply IH; auto. rewrite set_nth_length. exact Hi. Qed.
+
+(* each used junction's velocity components are the right-hand sides of its own x- and y-equation; every other entry is 0 *)
+Theorem rhs_placement nrows fmap vel : NoDup (map fst (rhs_writes fmap vel)) ->
+  let b := set_velocity_rhs nrows fmap vel in
+  length b = nrows /\
+  (forall v r, In (v, r) fmap -> (S (Z.to_nat r) < nrows)%nat ->
+     nth (Z.to_nat r) b 0%Q = fst (vel v) /\ nth (S (Z.to_nat r)) b 0%Q = snd (vel v)) /\
+  (forall k, ~ In k (map fst (rhs_writes fmap vel)) -> nth k b 0%Q = 0%Q).
+Proof. intros Hnd b. unfold b. rewrite set_velocity_rhs_writes. split; [|split].
+  - rewrite fold_set_nth_length. unfold zeros. apply repeat_length.
+  - intros v r Hin Hr. split; apply fold_set_nth_same; try exact Hnd; try (unfold zeros; rewrite repeat_length; lia);
+    unfold rhs_writes; apply in_flat_map; exists (v, r); (split; [exact Hin|simpl; auto]).
+  - intros k Hk. rewrite fold_set_nth_other by exact Hk. unfold zeros.
+    destruct (Nat.lt_ge_cases k nrows) as [H|H]; [apply nth_repeat|apply nth_overflow; rewrite repeat_length; exact H]. Qed.
+
+(* static mode: nothing is written *)
+Theorem rhs_static nrows vel : set_velocity_rhs nrows [] vel = zeros nrows.
+Proof. reflexivity. Qed.
